@@ -106,7 +106,7 @@ def run_case(case, ctx):
             _cmp(ctx, op, denote(a[0]), denote(b[0]), "same seed twice", exact=True)
         elif rel == "scale":
             base = seeded(ttb.cp_als, T, R, printitn=0, **kw)
-            for c in (2.0, 0.5, 3.7):
+            for c in (2.0, 0.5, 3.7, 2.0 ** -12):
                 o = seeded(ttb.cp_als, ttb.tensor(X * c), R, printitn=0, **kw)
                 _cmp(ctx, op, c * denote(base[0]), denote(o[0]), f"data scaled by {c}", scale=c)
                 ctx.check(abs(base[2]["fit"] - o[2]["fit"]) <= 1e-8, op, "DIFFERS", f"fit changed under scaling by {c}", what="fit")
@@ -133,7 +133,7 @@ def run_case(case, ctx):
                 _cmp(ctx, op, denote(base), denote(_quiet(ttb.hosvd, T, 0.3, verbosity=vb)), f"verbosity 0 vs {vb}", verbosity=vb)
         elif rel == "scale":
             base = _quiet(ttb.hosvd, T, 0.3, verbosity=0)
-            for c in (2.0, 0.25, 3.7):
+            for c in (2.0, 0.25, 3.7, 2.0 ** -12, 2.0 ** 10):
                 o = _quiet(ttb.hosvd, ttb.tensor(X * c), 0.3, verbosity=0)
                 _cmp(ctx, op, c * denote(base), denote(o), f"data scaled by {c}", scale=c)
                 ctx.check(tuple(o.core.shape) == tuple(base.core.shape), op, "DIFFERS", "ranks changed under scaling", what="ranks")
@@ -179,6 +179,12 @@ def run_case(case, ctx):
         Tc = ttb.tensor(Xc.copy())
         M0 = ttb.ktensor([rng.random((s, R)) + 0.1 for s in shape])
         kw = dict(algorithm=sub, maxiters=3, printinneritn=0)
+        if case["cseed"] % 2:
+            # inadmissible zeros in the first factor of the guess and a longer run: exercises the zero-repair step
+            M0.factor_matrices[0][rng.random(M0.factor_matrices[0].shape) < 0.4] = 0.0
+            M0.factor_matrices[0][0, :] = 0.3
+            kw["maxiters"] = 6
+            ctx.feat(zero_guess=True)
         try:
             if rel == "dense-sparse":
                 a = _quiet(ttb.cp_apr, Tc, R, init=M0.copy(), printitn=0, **kw)
